@@ -98,6 +98,7 @@ type Obligation struct {
 	exceptObl *Obligation
 	clause    *Clause
 	ModelWeak bool // model found after dropping background axioms (candidate only)
+	Retried    bool
 	failedPart *Obligation
 	parts     []*Obligation // when set: the obligation holds iff every part does (one part per return path)
 }
@@ -150,6 +151,10 @@ func (r *Run) declare(prefix, sort string) string {
 func (r *Run) define(prefix, sort, expr string) string {
 	if !strings.HasPrefix(expr, "(") {
 		return expr // already atomic
+	}
+	if strings.HasPrefix(expr, "(ite ") {
+		// merged values appear inside quantifier patterns: they must be constants, not macros
+		return r.constOf(prefix, sort, expr)
 	}
 	n := r.fresh(prefix)
 	r.emit(fmt.Sprintf("(define-fun %s () %s %s)", n, sort, expr))
@@ -646,7 +651,23 @@ func (r *Run) mergeVal(c string, a, b Val) (Val, bool) {
 func (r *Run) merge2(a, b *State) *State {
 	c := a.reach // condition selecting a's values
 	out := a
-	for k, va := range a.env {
+	// deterministic order: the names of fresh constants depend on it
+	envKeys := make([]ssa.Value, 0, len(a.env))
+	for k := range a.env {
+		envKeys = append(envKeys, k)
+	}
+	sort.Slice(envKeys, func(i, j int) bool {
+		ni, nj := envKeys[i].Name(), envKeys[j].Name()
+		if ni != nj {
+			if len(ni) != len(nj) {
+				return len(ni) < len(nj)
+			}
+			return ni < nj
+		}
+		return envKeys[i].Pos() < envKeys[j].Pos()
+	})
+	for _, k := range envKeys {
+		va := a.env[k]
 		vb, ok := b.env[k]
 		if !ok {
 			delete(out.env, k)
@@ -658,7 +679,8 @@ func (r *Run) merge2(a, b *State) *State {
 			delete(out.env, k)
 		}
 	}
-	for k, va := range a.vars {
+	for _, k := range sortedKeys(a.vars) {
+		va := a.vars[k]
 		vb, ok := b.vars[k]
 		if !ok {
 			delete(out.vars, k)
@@ -677,7 +699,7 @@ func (r *Run) merge2(a, b *State) *State {
 	for k := range b.heaps {
 		names[k] = true
 	}
-	for k := range names {
+	for _, k := range sortedKeys(names) {
 		ha, oka := a.heaps[k]
 		hb, okb := b.heaps[k]
 		if !oka {
